@@ -48,12 +48,53 @@ fn zero_offset_tx(kc: &ExtKeychain, n: u32, fee: u32, value: u64) -> Transaction
 	tx
 }
 
-fn verdict_tx(tx: &Transaction) -> String {
-	match catch(std::panic::AssertUnwindSafe(|| tx.validate(Weighting::AsTransaction))) {
+fn verdict_tx_w(tx: &Transaction, w: Weighting) -> String {
+	match catch(std::panic::AssertUnwindSafe(|| tx.validate(w))) {
 		Ok(Ok(_)) => "ok".into(),
 		Ok(Err(e)) => format!("err:{}", format!("{:?}", e).chars().take_while(|c| c.is_alphanumeric()).collect::<String>()),
 		Err(_) => "panic".into(),
 	}
+}
+
+/// the weightings a transaction is validated under in the node: as a transaction (pool admission),
+/// as a limited transaction (mineable-set selection), as a block body, and with no limit (every
+/// aggregate the pool builds)
+fn weightings() -> Vec<(&'static str, Weighting)> {
+	vec![
+		("AsTransaction", Weighting::AsTransaction),
+		("AsLimitedTransaction(max)", Weighting::AsLimitedTransaction(global::max_block_weight())),
+		("AsLimitedTransaction(10000)", Weighting::AsLimitedTransaction(10_000)),
+		("AsBlock", Weighting::AsBlock),
+		("NoLimit", Weighting::NoLimit),
+	]
+}
+
+/// `Transaction::validate` under EVERY weighting. All bodies of this sweep are far below every weight
+/// limit, so the weighting must not matter: one verdict when they agree, `MIXED[..]` (always an
+/// oracle failure) when they do not.
+fn verdict_tx(tx: &Transaction) -> String {
+	let vs: Vec<(&str, String)> = weightings().into_iter().map(|(n, w)| (n, verdict_tx_w(tx, w))).collect();
+	if vs.iter().all(|(_, v)| *v == vs[0].1) {
+		vs[0].1.clone()
+	} else {
+		let l: Vec<String> = vs.iter().map(|(n, v)| format!("{}={}", n, v)).collect();
+		format!("MIXED[{}]", l.join(","))
+	}
+}
+
+/// a fee-field word as it arrives from the wire: `FeeFields::read` takes any u64
+fn fee_from_word(w: u64) -> grin_core::core::FeeFields {
+	use grin_core::ser::{self, DeserializationMode, ProtocolVersion};
+	let bytes = w.to_be_bytes();
+	ser::deserialize::<grin_core::core::FeeFields, _>(&mut &bytes[..], ProtocolVersion(2), DeserializationMode::default()).unwrap()
+}
+
+/// the transaction written to bytes and read back (so that every kernel really went through
+/// `TxKernel::read` / `FeeFields::read`); None when the reader refuses it
+fn through_bytes(tx: &Transaction) -> Option<Transaction> {
+	use grin_core::ser::{self, DeserializationMode, ProtocolVersion};
+	let v = ser::ser_vec(tx, ProtocolVersion(2)).ok()?;
+	ser::deserialize::<Transaction, _>(&mut &v[..], ProtocolVersion(2), DeserializationMode::default()).ok()
 }
 
 fn verdict_block(b: &Block, prev_offset: &BlindingFactor) -> String {
@@ -66,7 +107,7 @@ fn verdict_block(b: &Block, prev_offset: &BlindingFactor) -> String {
 
 fn expect_reject(out: &mut Out, lhs: &str, v: &str, n_bad: &mut u64) {
 	out.line(lhs, v);
-	if v == "ok" || v == "panic" {
+	if v == "ok" || v == "panic" || v.starts_with("MIXED") {
 		*n_bad += 1;
 		out.raw(&format!("#ORACLE-FAIL C01 corrupted object accepted (or panic): {} => {}", lhs, v));
 	}
@@ -143,6 +184,37 @@ fn main() {
 			t.body.outputs[i].proof = p;
 			cases += 1;
 			expect_reject(&mut out, &format!("c01 tx n={} proof-swapped index={}", n, i), &verdict_tx(&t), &mut bad);
+		}
+		// forged / missing range proof and forged / missing signature (not another object's, but
+		// bytes that are nobody's), first / middle / last index; like everything in this sweep under
+		// every weighting
+		for i in [0usize, no / 2, no - 1] {
+			let mut t = agg.clone();
+			let mut p = t.body.outputs[i].proof;
+			p.proof[p.plen / 2] ^= 0x40;
+			t.body.outputs[i].proof = p;
+			cases += 1;
+			expect_reject(&mut out, &format!("c01 tx n={} proof-forged index={}", n, i), &verdict_tx(&t), &mut bad);
+			let mut t = agg.clone();
+			t.body.outputs[i].proof = grin_util::secp::pedersen::RangeProof::zero();
+			cases += 1;
+			expect_reject(&mut out, &format!("c01 tx n={} proof-missing index={}", n, i), &verdict_tx(&t), &mut bad);
+		}
+		for i in [0usize, nk / 2, nk - 1] {
+			for (what, forged) in [("sig-forged", true), ("sig-missing", false)] {
+				let mut t = agg.clone();
+				let mut raw = [0u8; 64];
+				if forged {
+					raw.copy_from_slice(t.body.kernels[i].excess_sig.as_ref());
+					raw[40] ^= 0x04;
+				}
+				t.body.kernels[i].excess_sig = grin_util::secp::Signature::from_raw_data(&raw).unwrap();
+				let marker = t.body.kernels[i].clone();
+				t.body.kernels.sort_unstable();
+				let idx = t.body.kernels.iter().position(|k| *k == marker).unwrap();
+				cases += 1;
+				expect_reject(&mut out, &format!("c01 tx n={} {} sorted-index={}", n, what, idx), &verdict_tx(&t), &mut bad);
+			}
 		}
 		// a fee changed (the signature covers the fee), at a few indices incl. first/last/32
 		for i in [0usize, nk / 2, nk - 1, 32.min(nk - 1)] {
@@ -402,6 +474,196 @@ fn main() {
 			expect_reject(&mut out, "c01 block fee-shift coinbase-claims-only-shifted-fees", &verdict_block(&b2, &po), &mut bad);
 		}
 	}
+	// ---- fee fields read from bytes: layout {reserved: 20, fee_shift: 4, fee: 40}; the reader takes
+	// any u64. Whatever the reserved bits 44..63 hold, fee() is the low 40 bits, fee_shift() bits
+	// 40..43, the overage of a transaction the sum of the 40-bit fees (never negative), and the value
+	// given up by a valid transaction exactly that.
+	{
+		const FEE_MASK: u64 = (1u64 << 40) - 1;
+		let mut patterns: Vec<(String, u64)> = (44..64u32).map(|b| (format!("bit{}", b), 1u64 << b)).collect();
+		patterns.push(("all-reserved".into(), !0u64 << 44));
+		for k in 0..(if thorough { 24 } else { 8 }) {
+			patterns.push((format!("random{}", k), rng.next() & (!0u64 << 44)));
+		}
+		let mut n_words = 0u64;
+		for (pi, (pname, reserved)) in patterns.iter().enumerate() {
+			let shift = if pname == "bit63" { 0 } else { [0u64, 1, 7, 15][pi % 4] };
+			let fee = if pname == "bit63" { 2 } else { 3_000_000u64 + pi as u64 * 13 };
+			let word = reserved | (shift << 40) | fee;
+			let ff = fee_from_word(word);
+			n_words += 1;
+			// accessors against the specification (mask)
+			let got = format!("fee={} fee_shift={}", ff.fee(), ff.fee_shift());
+			let want = format!("fee={} fee_shift={}", word & FEE_MASK, (word >> 40) & 15);
+			out.line(&format!("c01 feefields word={:#018x} ({})", word, pname), &got);
+			if got != want {
+				bad += 1;
+				out.raw(&format!("#ORACLE-FAIL C01 FeeFields read from the bytes of {:#018x} ({}): {} but the layout {{reserved:20, fee_shift:4, fee:40}} says {}", word, pname, got, want));
+			}
+			// honest: declares `word`, gives up exactly the 40-bit fee
+			let value = 900_000_000u64 + pi as u64 * 1000;
+			let i = pi as u32;
+			let honest = build::transaction(
+				KernelFeatures::Plain { fee: ff },
+				&[build::input(value, key(14, i)), build::output(value - fee, key(15, i))],
+				&kc,
+				&ProofBuilder::new(&kc),
+			)
+			.map_err(|e| eprintln!("build: {:?}", e))
+			.ok()
+			.and_then(|t| {
+				let r = through_bytes(&t);
+				if r.is_none() {
+					use grin_core::ser::{self, DeserializationMode, ProtocolVersion};
+					let v = ser::ser_vec(&t, ProtocolVersion(2));
+					eprintln!("ser: {:?}", v.as_ref().map(|x| x.len()));
+					if let Ok(v) = v {
+						eprintln!("de: {:?}", ser::deserialize::<Transaction, _>(&mut &v[..], ProtocolVersion(2), DeserializationMode::default()).map(|_| ()));
+					}
+				}
+				r
+			});
+			match honest {
+				Some(t) => {
+					let got = format!("fee={} fee_shift={} shifted_fee={} overage={}", t.fee(), t.body.fee_shift(), t.shifted_fee(), t.overage());
+					let want = format!("fee={} fee_shift={} shifted_fee={} overage={}", fee, shift, fee >> shift, fee as i64);
+					out.line(&format!("c01 feefields tx word={:#018x} ({}) totals", word, pname), &got);
+					if got != want {
+						bad += 1;
+						out.raw(&format!("#ORACLE-FAIL C01 transaction whose kernel carries the fee-field word {:#018x} ({}): {} but the 40-bit fee / 4-bit shift give {}", word, pname, got, want));
+					}
+					let v = verdict_tx(&t);
+					out.line(&format!("c01 feefields tx word={:#018x} ({}) gives-up-the-40-bit-fee", word, pname), &v);
+					if v != "ok" {
+						bad += 1;
+						out.raw(&format!("#ORACLE-FAIL C01 valid transaction (input {}, output {}, kernel fee-field word {:#018x} read from bytes: 40-bit fee {}) refused: {}", value, value - fee, word, fee, v));
+					}
+					// the same transaction in a block whose coinbase claims exactly the 40-bit fee
+					let prev = grin_core::core::BlockHeader::default();
+					let po = prev.total_kernel_offset();
+					let rw = reward::output(&kc, &ProofBuilder::new(&kc), &key(16, i), fee, false).unwrap();
+					if let Ok(blk) = Block::new(&prev, &[t.clone()], Difficulty::min_dma(), rw) {
+						let vb = verdict_block(&blk, &po);
+						out.line(&format!("c01 feefields block word={:#018x} ({}) coinbase-claims-the-40-bit-fee", word, pname), &vb);
+						if vb != "ok" {
+							bad += 1;
+							out.raw(&format!("#ORACLE-FAIL C01 valid block (one transaction with kernel fee-field word {:#018x}, coinbase claiming reward + {}) refused: {}", word, fee, vb));
+						}
+					}
+					// a coinbase claiming the word as a number (low 63 bits) instead
+					if pi % 3 == 0 {
+						let claim = word & (FEE_MASK | (1u64 << 44) | (1u64 << 50));
+						if claim != fee {
+							let rw2 = reward::output(&kc, &ProofBuilder::new(&kc), &key(17, i), claim, false).unwrap();
+							if let Ok(b2) = Block::new(&prev, &[t.clone()], Difficulty::min_dma(), rw2) {
+								cases += 1;
+								expect_reject(&mut out, &format!("c01 feefields block word={:#018x} ({}) coinbase-claims-reserved-bits-as-fee", word, pname), &verdict_block(&b2, &po), &mut bad);
+							}
+						}
+					}
+				}
+				None => {
+					bad += 1;
+					out.raw(&format!("#ORACLE-FAIL C01 harness: transaction with fee-field word {:#018x} could not be built / written / read back", word));
+				}
+			}
+			// inflating: the reserved bits read as value. If bit 63 leaked into the fee the overage
+			// (an i64) would be negative: 5 in, 2^63 + 3 out would balance. For the other bits the
+			// transaction burns the reserved bits as if they were fee (the miner would claim them).
+			if reserved >> 63 == 1 {
+				// bit 63 alone leaking: outputs may exceed inputs by 2^63 - fee; the whole word read as
+				// an i64: by 2^64 - word
+				let mut deltas = vec![(1u64 << 63) - fee];
+				let neg = (!word).wrapping_add(1);
+				if neg != deltas[0] && neg <= (1u64 << 63) {
+					deltas.push(neg);
+				}
+				for (di, d) in deltas.iter().enumerate() {
+					let vin = 5u64;
+					let vout = vin + d;
+					if let Some(t) = build::transaction(
+						KernelFeatures::Plain { fee: ff },
+						&[build::input(vin, key(18, i * 2 + di as u32)), build::output(vout, key(19, i * 2 + di as u32))],
+						&kc,
+						&ProofBuilder::new(&kc),
+					)
+					.ok()
+					.and_then(|t| through_bytes(&t))
+					{
+						cases += 1;
+						expect_reject(
+							&mut out,
+							&format!("c01 feefields tx word={:#018x} ({}) inflating: input={} output={} (value minted if bit 63 reached the overage)", word, pname, vin, vout),
+							&verdict_tx(&t),
+							&mut bad,
+						);
+					}
+				}
+			}
+			{
+				// gives up the whole word below bit 63 as if it were the fee
+				let burn = word & !(1u64 << 63);
+				if burn != fee && burn < (1u64 << 62) {
+					let vin = burn + 1000;
+					if let Some(t) = build::transaction(
+						KernelFeatures::Plain { fee: ff },
+						&[build::input(vin, key(20, i)), build::output(1000, key(21, i))],
+						&kc,
+						&ProofBuilder::new(&kc),
+					)
+					.ok()
+					.and_then(|t| through_bytes(&t))
+					{
+						cases += 1;
+						expect_reject(
+							&mut out,
+							&format!("c01 feefields tx word={:#018x} ({}) gives-up-reserved-bits-as-fee: input={} output=1000", word, pname, vin),
+							&verdict_tx(&t),
+							&mut bad,
+						);
+					}
+				}
+			}
+		}
+		// an aggregate of transactions with different reserved patterns: totals and balance
+		{
+			let words: Vec<u64> = vec![(1u64 << 63) | 2_000_001, (1u64 << 44) | (3u64 << 40) | 2_000_002, (0xABCDEu64 << 44) | 2_000_003];
+			let txs_w: Vec<Transaction> = words
+				.iter()
+				.enumerate()
+				.filter_map(|(i, w)| {
+					let value = 700_000_000u64 + i as u64;
+					build::transaction(
+						KernelFeatures::Plain { fee: fee_from_word(*w) },
+						&[build::input(value, key(22, i as u32)), build::output(value - (w & FEE_MASK), key(23, i as u32))],
+						&kc,
+						&ProofBuilder::new(&kc),
+					)
+					.ok()
+				})
+				.collect();
+			if txs_w.len() == words.len() {
+				if let Some(agg) = transaction::aggregate(&txs_w).ok().and_then(|t| through_bytes(&t)) {
+					let want_fee: u64 = words.iter().map(|w| w & FEE_MASK).sum();
+					let got = format!("fee={} fee_shift={} overage={}", agg.fee(), agg.body.fee_shift(), agg.overage());
+					let want = format!("fee={} fee_shift={} overage={}", want_fee, 3, want_fee as i64);
+					out.line("c01 feefields aggregate of three reserved patterns totals", &got);
+					if got != want {
+						bad += 1;
+						out.raw(&format!("#ORACLE-FAIL C01 aggregate of kernels with fee-field words {:x?}: {} but the 40-bit fees / 4-bit shifts give {}", words, got, want));
+					}
+					let v = verdict_tx(&agg);
+					out.line("c01 feefields aggregate of three reserved patterns valid", &v);
+					if v != "ok" {
+						bad += 1;
+						out.raw(&format!("#ORACLE-FAIL C01 valid aggregate of kernels with fee-field words {:x?} refused: {}", words, v));
+					}
+				}
+			}
+		}
+		out.raw(&format!("#STAT c01 fee-field words read from bytes={}", n_words));
+	}
+	out.raw(&format!("#STAT c01 weightings per transaction verdict={}", weightings().len()));
 	out.raw(&format!("#STAT c01 corruption cases={} accepted={}", cases, bad));
 	out.flush();
 }
